@@ -23,6 +23,8 @@ pub struct CrashCfg {
     /// compare contiguous length too (C08)
     pub check_contig: bool,
     pub seed: u64,
+    /// which usability suffix to run (set per crash point by `enumerate`)
+    pub suffix_variant: usize,
 }
 
 /// Compare an observation with a model state; None if equal.
@@ -146,6 +148,17 @@ pub fn torn_cuts(n: usize, rng: &mut impl FnMut() -> u64) -> Vec<usize> {
 }
 
 /// The fixed usability suffix, role: writer.
+/// Variants of the usability suffix. The standard one starts with an append (which rewrites the
+/// bitfield page it touches and so can heal a page that recovery left stale); the others flush
+/// without touching existing pages first.
+pub fn writer_suffix_variant(v: usize) -> Vec<Op> {
+    match v % 3 {
+        0 => writer_suffix(),
+        1 => vec![Op::MakeReadOnly, Op::Reopen, Op::Append(Blk { len: 2, fill: 0x54 }), Op::Clear { a: 0x3000, n: 0 }, Op::Reopen],
+        _ => vec![Op::Reopen, Op::Clear { a: 0xffff, n: 0 }, Op::Clear { a: 0xffff, n: 0 }, Op::Reopen, Op::Append(Blk { len: 1, fill: 0x55 }), Op::Reopen],
+    }
+}
+
 pub fn writer_suffix() -> Vec<Op> {
     vec![
         Op::Append(Blk { len: 3, fill: 0x51 }),
@@ -224,7 +237,7 @@ fn recover_and_check(
     if cfg.suffix {
         let mut sim = WSim::attach(&disk, core, cands[mi].clone(), ObsPolicy::Windowed);
         sim.check_contig = cfg.check_contig;
-        let suffix = writer_suffix();
+        let suffix = writer_suffix_variant(if depth == 0 { cfg.suffix_variant } else { 0 });
         let k_start = disk.journal_len();
         let mut recs: Vec<(usize, usize, ListModel, ListModel)> = vec![];
         for op in &suffix {
@@ -238,8 +251,13 @@ fn recover_and_check(
         // one level of recursion: crash inside the suffix
         if depth == 0 && cfg.recurse_every.is_some() {
             let journal = disk.journal();
+            // base = the files as they were when the suffix started, i.e. including whatever the
+            // recovering open() itself wrote (it may truncate leftovers)
             let mut f2 = files.clone();
-            let sub = CrashCfg { recurse_every: None, suffix: true, torn: false, torn_only: false, ..*cfg };
+            for jop in &journal[..k_start] {
+                apply(&mut f2, jop);
+            }
+            let sub = CrashCfg { recurse_every: None, suffix: true, torn: false, torn_only: false, suffix_variant: 0, ..*cfg };
             for k in k_start..=journal.len() {
                 if k > k_start {
                     apply(&mut f2, &journal[k - 1]);
@@ -320,6 +338,7 @@ pub fn enumerate(rec: &Recorded, cfg: &CrashCfg, local: &mut Local, stats: &mut 
                 sub.recurse_every = None;
                 sub.suffix = cfg.suffix && point % 4 == 0;
             }
+            sub.suffix_variant = point;
             local.class("crash_points");
             if let Some(c) = call {
                 if c.e - c.b >= 2 && c.unflushed_before > 0 {
@@ -366,6 +385,7 @@ pub fn enumerate(rec: &Recorded, cfg: &CrashCfg, local: &mut Local, stats: &mut 
                     }
                     let mut sub = *cfg;
                     sub.recurse_every = None;
+                    sub.suffix_variant = k + cut;
                     if heavy {
                         sub.suffix = cfg.suffix && cut % 8 == 1;
                     }
